@@ -1,7 +1,7 @@
 """frame-alphabet exploration of the SDO server (C04, C05; SDO part of C01)"""
 import common, vlib, sdo_common
 
-VARIANTS = {"default": (), "h0": ("CO_VERIF_SDO_BUF_SEG=3",), "h0n2": ("CO_VERIF_SDO_BUF_SEG=3", "CO_SSDO_N=2")}
+VARIANTS = {"n2": ("CO_SSDO_N=2",), "default": (), "h0": ("CO_VERIF_SDO_BUF_SEG=3",), "h0n2": ("CO_VERIF_SDO_BUF_SEG=3", "CO_SSDO_N=2")}
 
 def preamble_for(objs):
     base = sdo_common.make_preamble(objs)
@@ -38,3 +38,4 @@ def run(ctx, pid):
     # direction code -> spec: recorded dialogues of a PRNG client validated by TLC against CoSsdo (CoSsdoTrace)
     import sdo_trace
     sdo_trace.run(ctx, 700 if q else 25000, ndlg=10)
+    sdo_trace.run(ctx, 400 if q else 15000, ndlg=10, nsrv=2)      # one PRNG client per server of a CO_SSDO_N = 2 build
